@@ -234,6 +234,7 @@ package inode
 //@   requires [index] index < 10 @C11
 //@   allocates buf.Buf
 //@   modifies ip.blks[*], dirtyinum, buf.Buf.dirty, []uint8@buf.Buf.Data, op.freeBnums, []uint64@alloctxn.AllocTxn.freeBnums, zeroed
+//@   ensures [Z1-freed-zero] old(ip.blks[index]) != 0 ==> zeroed[old(ip.blks[index])] @C12
 //@   ensures [F3-cleared] ip.blks[index] == 0 && (forall k uint64 :: k < 10 && k != index ==> ip.blks[k] == old(ip.blks[k])) @C05
 //@   ensures [I1-inode] inodeInv(ip) @C04
 //@   ensures listsValid(op) && listsStable(op) && othersClean(ip)
@@ -248,6 +249,7 @@ package inode
 //@   modifies buf.Buf.dirty, []uint8@buf.Buf.Data, op.freeBnums, []uint64@alloctxn.AllocTxn.freeBnums, zeroed
 //@   ensures [F3-rootornull] result == 0 || result == root @C05
 //@   ensureslocal [F3-slot-cleared] nxtroot != 0 && (level == 1 || ind == 0) ==> le64(b.Data, boff) == 0 @C04 @C05 @C12
+//@   ensures [Z1-all-freed-zero] forall k uint64 :: old(len(op.freeBnums)) <= k && k < len(op.freeBnums) ==> zeroed[op.freeBnums[k]] @C12
 //@   ensures [F3-exact] root != 0 ==> result == ite(level == 0 || bn == 0, root, 0) @C05
 //@   ensures listsValid(op) && listsStable(op)
 
